@@ -145,7 +145,7 @@ class NixList(TypedExpression):
         self, *, indent: int, max_width: int = MAX_INLINE_LIST_WIDTH
     ) -> str | None:
         """Offer a safe inline preview for callers that need compact output."""
-        if self.multiline:
+        if self.multiline or self.has_scope():
             return None
         if self.before or self.after or self.inner_trivia:
             return None
